@@ -38,7 +38,11 @@ ASSUMPTIONS = ["std::map with the strcmp comparator behaves as an association li
 RULE = ("tables dumped from the real metadata on each run (UTEST; thorough: also FIX44): F8MetaCntx::find_be and _be.find_* for "
         "ALL tags 0..65535 (exhaustive); every message / group / header / trailer trait table for all tags 0..maxfnum+300 plus "
         "windows at 32768 and 65535 (thorough: ALL tags 0..65535 for every table, quick: for 3 tables), one case line per table "
-        "range; every msgtype plus near-misses (prefix, suffix, case flip, +-1 char, doubled, empty); reverse name lookups with "
+        "range; SYNTHETIC trait tables built with the real FieldTrait / FieldTrait_Hash_Array / FieldTraits classes, sizes 1, 2, 127, "
+        "128, 255, 256, 257, 300, 1000 (beyond the largest shipped class: the tie covers every index width of the tag->index table), "
+        "tags dense, sparse and spread up to 65535, queried for all tags in range plus a window at 65535 (thorough: all tags); large "
+        "tables (255..300, thorough 1000) through the non-hash array constructor with finds of every member and neighbour; "
+        "every msgtype plus near-misses (prefix, suffix, case flip, +-1 char, doubled, empty); reverse name lookups with "
         "every name plus near-miss names; random histories (length <= 200, keys from a small range so duplicates and "
         "re-allocation both occur) on presorted_set<unsigned short, FieldTrait, FieldTrait::Compare> (array, empty and hash-array "
         "constructors) and on a generic instantiation presorted_set<short, GElem, Less>; histories that never insert into a "
@@ -275,9 +279,64 @@ def history_cases(rng, tier):
     return cs
 
 
+# ---- synthetic trait tables: sizes beyond what the shipped schemas reach ----
+SYN_SIZES = (1, 2, 127, 128, 255, 256, 257, 300, 1000)
+
+
+def syn_table(rng, n, layout):
+    if layout == "dense":
+        start = rng.choice((0, 1, 1, 7, 100))
+        tags = list(range(start, start + n))
+    elif layout == "sparse":
+        tags, t = [], rng.randrange(0, 20)
+        for _ in range(n):
+            tags.append(t)
+            t += rng.choice((1, 1, 2, 3, 7, 40))
+    else:                                   # spread over the whole tag range, last tag 65535
+        tags = sorted(rng.sample(range(0, 65535), n - 1)) + [65535]
+    ents = []
+    for i, t in enumerate(tags):
+        traits = rng.randrange(0, 128)
+        if rng.random() < 0.7:
+            traits |= 4                     # position bit
+        ents.append("%d:%d:%d:%d" % (t, i + 1, rng.randrange(0, 4), traits))
+    return tags, ",".join(ents)
+
+
+def synthetic_table_cases(rng, tier):
+    cs = []
+    thorough = tier == "thorough"
+    for n in SYN_SIZES:
+        for layout in ("dense", "sparse", "top"):
+            for _ in range(3 if thorough else 1):
+                tags, tab = syn_table(rng, n, layout)
+                top = min(65535, tags[-1] + 300)
+                if layout != "top":
+                    ranges = [(lo, min(top, lo + 16383)) for lo in range(0, top + 1, 16384)]
+                    ranges += [(65000, 65535)]
+                elif thorough or n in (256, 257):
+                    ranges = [(lo, lo + 16383) for lo in range(0, 65536, 16384)]
+                else:
+                    # all members from sorted position 200 on, plus the bottom of the range
+                    cut = tags[min(len(tags) - 1, 200)] if n > 200 else tags[0]
+                    ranges = [(0, min(2000, 65535)), (max(0, min(cut, 61000) - 2), 65535)] if n > 200 else [(0, 3000), (62000, 65535)]
+                for lo, hi in ranges:
+                    cs.append(Case("TS %s %d %d" % (tab, lo, hi), "synthetic-traits-%s" % layout))
+    # the array (range) constructor without a hash array: every member and its neighbours, large tables
+    for op, kmax in (("PS", 65535), ("PG", 32767)):
+        for n in (255, 256, 257, 300) + ((1000,) if thorough else ()):
+            keys = sorted(rng.sample(range(0, min(kmax, 4 * n) + 1), n))
+            tab = ",".join("%d.%d" % (k, i % 1000) for i, k in enumerate(keys))
+            probes = sorted(set(x for k in keys for x in (k - 1, k, k + 1) if 0 <= x <= kmax))
+            ops = ["f%d" % k for k in probes] + ["t%d" % i for i in (0, 254, 255, 256, n - 1, n)] + ["a%d" % rng.choice(keys), "i%d.1" % rng.choice(keys)]
+            cs.append(Case("%s A:1000:%s %s" % (op, tab, " ".join(ops)), "%s-large-table-finds" % op))
+    return cs
+
+
 def gen_cases(rng, tier):
     cs = []
     _STATE["dump"] = _dump("")
+    cs += synthetic_table_cases(rng, tier)
     cs += table_cases("", _STATE["dump"], rng, tier)
     if _STATE.get("both"):
         _STATE["dump44"] = _dump("4")
@@ -372,7 +431,7 @@ CLASSIFIERS = {"insert-into-full-set": c_insert_full_set, "reserve-zero-first-in
 def nontrivial(case, r):
     w = case.line.split(" ")
     op = w[0].rstrip("4") if w[0] not in ("4",) else w[0]
-    if op == "T":
+    if op in ("T", "TS"):
         return int(w[3]) - int(w[2]) >= 100 and r.count(":") >= 6 * 2
     if op == "F":
         return int(w[2]) - int(w[1]) >= 100
@@ -414,7 +473,7 @@ def shrink(case):
             return []
         cands = [w[:2] + ops[:-1], w[:2] + ops[1:], w[:2] + ops[:len(ops) // 2]]
         return [Case(" ".join(c), "shrink") for c in cands]
-    if op.startswith("T") and len(w) == 4:
+    if op.startswith("T") and len(w) == 4:      # T, T4, TS
         lo, hi = int(w[2]), int(w[3])
         if hi <= lo:
             return []
